@@ -892,10 +892,7 @@ func (c *client) maybeOverrideUnsupportedWriteConsistency(isSelect bool, raw *fr
 					zap.Stringer("unsupported", m.Consistency),
 					zap.Stringer("override", overrideConsistency))
 				m.Consistency = overrideConsistency
-				return &frame.Frame{
-					Header: raw.Header,
-					Body:   body,
-				}
+				return c.overriddenFrame(raw, body)
 			} else {
 				c.proxy.logger.Debug("no override required for execute write consistency",
 					zap.Stringer("request", m),
@@ -908,10 +905,7 @@ func (c *client) maybeOverrideUnsupportedWriteConsistency(isSelect bool, raw *fr
 					zap.Stringer("unsupported", m.Consistency),
 					zap.Stringer("override", overrideConsistency))
 				m.Consistency = overrideConsistency
-				return &frame.Frame{
-					Header: raw.Header,
-					Body:   body,
-				}
+				return c.overriddenFrame(raw, body)
 			} else {
 				c.proxy.logger.Debug("no override required for query write consistency",
 					zap.Stringer("request", m),
@@ -924,10 +918,7 @@ func (c *client) maybeOverrideUnsupportedWriteConsistency(isSelect bool, raw *fr
 					zap.Stringer("unsupported", m.Consistency),
 					zap.Stringer("override", overrideConsistency))
 				m.Consistency = overrideConsistency
-				return &frame.Frame{
-					Header: raw.Header,
-					Body:   body,
-				}
+				return c.overriddenFrame(raw, body)
 			} else {
 				c.proxy.logger.Debug("no override required for batch write consistency",
 					zap.Stringer("request", m),
@@ -937,6 +928,22 @@ func (c *client) maybeOverrideUnsupportedWriteConsistency(isSelect bool, raw *fr
 	}
 
 	return raw
+}
+
+// overriddenFrame re-encodes a request whose consistency has been overridden. The body is encoded here, into a raw
+// frame, because encoding a whole `frame.Frame` computes a body length that is 16 bytes too long for requests that have
+// the tracing flag set (it accounts for a tracing ID that only responses carry), which corrupts the backend connection.
+func (c *client) overriddenFrame(raw *frame.RawFrame, body *frame.Body) interface{} {
+	frm := &frame.Frame{
+		Header: raw.Header,
+		Body:   body,
+	}
+	rawFrm, err := c.codec.ConvertToRawFrame(frm)
+	if err != nil {
+		c.proxy.logger.Error("unable to encode request with overridden write consistency", zap.Error(err))
+		return frm
+	}
+	return rawFrm
 }
 
 func (c *client) isUnsupportedWriteConsistency(consistency primitive.ConsistencyLevel) bool {
